@@ -1,14 +1,14 @@
 ------------------------------ MODULE RV32_MC ------------------------------
 (* Idiom M for RV32.tla: laws of the ISA model itself, checked exhaustively  *)
 (* on small domains before the model is used to judge ppci.                  *)
-(*  family "h16": every 16-bit pattern (65 536)                              *)
+(*  family "h16": every 16-bit pattern (65 536; a third of them when ~Deep) *)
 (*  family "w32": opcode x funct3 x funct7-class x two operand patterns      *)
 (*  family "ins": every mnemonic x register triples x labelled boundary imms *)
 (*  family "exe": executable mnemonics x register triples x imms x states    *)
 (*  family "hilo": boundary words for the %hi/%lo split                      *)
 (* The same run writes the boundary table of idiom G (RV32_Gen.WriteTable).  *)
 EXTENDS RV32_Gen
-CONSTANT Deep
+CONSTANTS Deep, Fams
 ASSUME WriteTable
 
 VARIABLES fam, c
@@ -18,6 +18,8 @@ None == [k |-> "none"]
 RB == IF Deep THEN {0, 1, 2, 5, 8, 9, 15, 16, 31} ELSE {0, 1, 2, 8, 15, 31}
 Triples == {<<r, r, r>> : r \in RB} \cup {<<10, 11, 12>>, <<8, 9, 9>>, <<9, 8, 8>>, <<1, 2, 0>>, <<0, 1, 2>>, <<31, 0, 15>>,
                                          <<2, 2, 9>>, <<12, 12, 13>>, <<5, 0, 0>>}
+ExeTriples == IF Deep THEN Triples ELSE {<<10, 11, 12>>, <<9, 9, 9>>, <<8, 9, 8>>, <<1, 2, 0>>, <<0, 1, 2>>, <<5, 5, 31>>}
+ExePlans == IF Deep THEN 1..Len(PairPlan) ELSE {1, 3, 5, 7, 9, 12}
 ImmsOf(m) == LET fr == FieldRange(m) IN
              IF fr.kind = "n" THEN {0} ELSE {Labelled(fr)[k][2] : k \in 1..Len(Labelled(fr))}
 AllMn == Mn32 \cup Mn16
@@ -28,9 +30,11 @@ ExeImms(m) == LET fr == FieldRange(m) IN
 F7s == {0, 1, 32, 64, 127}
 
 Init == fam = "none" /\ c = None
-PickFam == fam = "none" /\ fam' \in {"h16", "w32", "ins", "exe", "hilo"} /\ c' = None
+PickFam == fam = "none" /\ fam' \in Fams /\ c' = None
+\* quick configuration: every third high byte (all low bytes), so every opcode / funct3 / field value occurs
+H16Hi == IF Deep THEN 0..255 ELSE {h \in 0..255 : h % 3 = 0}
 PickH16 == fam = "h16" /\ c = None /\ UNCHANGED fam
-           /\ \E hi \in 0..255 : c' = [k |-> "h16-", hi |-> hi]          \* second fan-out level
+           /\ \E hi \in H16Hi : c' = [k |-> "h16-", hi |-> hi]          \* second fan-out level
 PickH16b == fam = "h16" /\ c.k = "h16-" /\ UNCHANGED fam
            /\ \E lo \in 0..255 : c' = [k |-> "h16", b |-> <<lo, c.hi>>]
 PickW32 == fam = "w32" /\ c = None /\ UNCHANGED fam
@@ -74,7 +78,7 @@ Repair(m, t, v) ==
       [] OTHER -> Ins(m, 0, 0, 0, 0, 2)
 PickExeMn == fam = "exe" /\ c = None /\ UNCHANGED fam /\ \E m \in ExeMn : c' = [k |-> "exe-", mn |-> m]
 PickExe == fam = "exe" /\ c.k = "exe-" /\ UNCHANGED fam
-           /\ \E t \in Triples, v \in ExeImms(c.mn), p \in 1..Len(PairPlan) :
+           /\ \E t \in ExeTriples, v \in ExeImms(c.mn), p \in ExePlans :
                  c' = [k |-> "exe", i |-> Repair(c.mn, t, v), plan |-> PairPlan[p]]
 HiLoWords == {<<a, b, d, e>> : a \in {0, 1, 254, 255}, b \in {0, 7, 8, 15, 16, 247, 248, 255}, d \in {0, 255, 127}, e \in {0, 127, 128, 255}}
 PickHiLo == fam = "hilo" /\ c = None /\ UNCHANGED fam /\ \E w \in HiLoWords : c' = [k |-> "hilo", w |-> w]
@@ -113,8 +117,8 @@ S2 == Perturb(S1, Reads(c.i) \cup ImplicitSP(c.i), c.plan[3])
 T1 == Exec(S1, c.i)
 IsExe == c.k = "exe" /\ WF(c.i)
 \* the manual's register sets are sound for Exec: the two clauses of C07 hold of the model itself
-LawWrites == IsExe => (T1.st = "ok" /\ NoUndeclaredWrite(S1, c.i, Writes(c.i)) /\ T1.x[1] = WZero(4))
-LawReads == IsExe => SameOutputs(S1, S2, c.i, Writes(c.i))
+LawWrites == IsExe => (T1.st = "ok" /\ NoUndeclaredWrite(S1, <<c.i>>, Writes(c.i)) /\ T1.x[1] = WZero(4))
+LawReads == IsExe => SameOutputs(S1, S2, <<c.i>>, Writes(c.i))
 \* ... and they are tight on these states: some state pair distinguishes every declared read
 \* (checked per instruction over the whole plan, not per state)
 LawPc == IsExe =>
